@@ -4,11 +4,24 @@ from .guards import outcomes
 from .veclen import VEC_REMOVE, VEC_POP, INDEX
 
 
-def site_key(o, fn, vl=None):
+def site_key(o, fn, vl=None, pv=None):
     """stable key of a non-Ok outcome"""
     k = o["kind"]
     if k == "propagate":
         inner = o["inner"]
+        if is_call(inner) and inner[1] in ("core::iter::traits::iterator::Iterator::collect", "core::iter::traits::collect::FromIterator::from_iter"):
+            # `iter.map(f).collect::<Result<_, _>>()?` fails exactly when some f(x) fails: the rejection is f's
+            from .codec import apply_fn
+            fs = []
+            for s in subterms(inner):
+                if is_call(s, "core::iter::traits::iterator::Iterator::map") and len(s[2]) == 2:
+                    body = apply_fn(fn.prog, s[2][1], [("x",)])
+                    if body is None and s[2][1][0] == "fn":
+                        body = ("call", s[2][1][2], (("x",),))
+                    if body is not None and is_call(body):
+                        fs.append(body[1])
+            if len(fs) == 1:
+                return "propagate:%s" % fs[0]
         if is_call(inner):
             return "propagate:%s" % inner[1]
         return "propagate:<%s>" % inner[0]
@@ -17,17 +30,16 @@ def site_key(o, fn, vl=None):
         if inner[0] == "aggr":
             if inner[2] == "DuplicateMapKey":
                 return "err:DuplicateMapKey"   # contains()+insert() and `!insert()` are the same rule (C12 checks the gate)
-            return "err:%s%s" % (inner[2], guard_summary(o))
+            return "err:%s%s" % (inner[2], guard_summary(o, fn, pv))
         return "err:<%s>" % show(inner)[:40]
     if k == "call":
         t = o["term"]
         if t[1] == "util::cbor_type_error":
             slot = None
             if vl is not None:
-                for c in subterms(t[2][0]):
-                    if is_call(c) and c[1] in (VEC_REMOVE, VEC_POP, INDEX) and c[3] and c[3][0] == fn.key:
-                        e = vl.site_elem.get(c[3][1])
-                        slot = e[2] if e else None
+                from .codec import elem_of
+                e = elem_of(t[2][0], fn, vl)
+                slot = e[0] if e else None
             return "type-error:slot%s" % ("?" if slot is None else slot)
         return "tailcall:%s" % t[1]
     return "other:%s" % show(o["term"])[:60]
@@ -38,7 +50,7 @@ def census(fn, pv, vl=None):
     for o in outcomes(fn, pv):
         if o["kind"] == "ok":
             continue
-        out.setdefault(site_key(o, fn, vl), []).append(o)
+        out.setdefault(site_key(o, fn, vl, pv), []).append(o)
     return out
 
 
@@ -61,19 +73,40 @@ def expected_for_kind(kind, slot, elem_decoders=None):
 NOISE = {"default", "new", "from_cbor_value", "from_cbor_value_depth", "next", "into_iter", "deref", "try_as_array", "index", "clone"}
 
 
-def guard_summary(o):
+def _frontier_subjects(fn, pv, bb):
+    """an error block shared by several tests (`_ => Err(..)` of a tuple match): the operands of the switches whose
+    edges lead to it through straight-line blocks"""
+    seen, work, subs = {bb}, [bb], []
+    while work:
+        b = work.pop()
+        for p in fn.cfg.pred[b]:
+            t = fn.blocks[p]["term"]
+            if t["k"] == "switch":
+                subs.append(pv.operand_term(t["op"], p, "term"))
+            elif p not in seen and len(fn.cfg.succ[p]) == 1:
+                seen.add(p)
+                work.append(p)
+    return subs
+
+
+def guard_summary(o, fn=None, pv=None):
     """what the innermost condition of an error site tests: '@len', '@is_empty', '@<callees>' or ''"""
     conds = [c for c in o["conds"] if not (c[0][0] == "discr" and is_call(c[0][1], "core::ops::try_trait::Try::branch"))]
-    if not conds:
+    lasts = [conds[-1][0]] if conds else []
+    if not conds and fn is not None and pv is not None:
+        lasts = _frontier_subjects(fn, pv, o["bb"])
+    if not lasts:
         return ""
-    last = conds[-1][0]
+    last = lasts[0]
     names = []
+    raw = set()
 
     def walk(x, depth):
         if not isinstance(x, tuple) or not x:
             return
         if is_call(x):
             n = x[1].split("::")[-1]
+            raw.add(n)
             d2 = depth + (1 if names else 0)
             if n not in NOISE:
                 if n not in names:
@@ -88,11 +121,15 @@ def guard_summary(o):
             walk(x[3], depth)
         elif x[0] in ("unop", "cast"):
             walk(x[2], depth)
-        elif x[0] in ("ref", "deref", "field", "variant", "tryok", "discr"):
+        elif x[0] in ("ref", "deref", "field", "variant", "tryok", "discr", "elemk"):
             walk(x[1], depth)
-    walk(last, 0)
-    if "len" in names:
-        return "@len"
+        elif x[0] == "tuple":
+            for y in x[1]:
+                walk(y, depth)
+    for x0 in lasts:
+        walk(x0, 0)
+    if "len" in names or "try_into" in names or (raw and raw <= {"next", "into_iter", "try_as_array", "branch"} and "next" in raw):
+        return "@len"       # the arity of the input array, however it is tested (len(), the k-th next(), Vec -> [T; N])
     if last[0] == "discr":
         return "@variant"
     return "@" + "+".join(names[:3]) if names else "@cond"
